@@ -137,3 +137,112 @@ def job(args):
     l = run(shape, seq, False)
     return {"eager": enc(e), "lazy": enc(l), "eager_raw": e, "lazy_raw": l,
             "eager_ok": all(r[0] != "exc" for r in e)}
+
+
+# ------------------------------------------------------------------ do_not_copy chains
+# Parent / child (/ grandchild) chains whose decorators disagree about do_not_copy (names
+# listed on the parent only, on the child only, True / False), the child not re-declaring
+# the attribute.  After EVERY trigger every class that is bootstrapped in the lazy twin is
+# observed (metadata incl. per-attribute do_not_copy, and whether a constructed instance
+# shares or copies the value it was given) and compared with the same classes of the eager
+# twin after the same triggers - so a child's bootstrap that reaches into its parent's
+# specifications shows up as "parent differs before the child was triggered".
+DNC_OPTS = [None, ["payload"], ["name"], ["payload", "name"], True]
+DNC_OPS = ["inst0", "meta0", "inst1", "meta1", "fields1", "inst2", "meta2"]
+
+
+def dnc_shapes():
+    out = []
+    for a in DNC_OPTS:
+        for b in DNC_OPTS:
+            if a == b:
+                continue
+            out.append({"dnc": [a, b], "redeclare": False})
+            out.append({"dnc": [a, b, a], "redeclare": False})
+    out.append({"dnc": [["payload"], None], "redeclare": True})
+    out.append({"dnc": [None, ["payload"]], "redeclare": True})
+    return out
+
+
+def dnc_sequences(shape):
+    k = len(shape["dnc"])
+    ops = [o for o in DNC_OPS if int(o[-1]) < k]
+    top = str(k - 1)
+    return [["inst0", "meta" + top, "inst0"], ["inst0", "inst" + top, "inst0"], ["meta0", "fields1", "inst1"],
+            ["inst" + top, "inst0", "meta0"], ["fields1", "inst0", "inst1"]] + \
+           ([["inst1", "inst2", "inst0"], ["inst0", "inst1", "meta2"]] if k == 3 else []) + \
+           ([ops[:3]] if ops[:3] not in ([],) else [])
+
+
+def dnc_render(shape, eager):
+    out = ["from typing import List", "from spec_classes import spec_class, Attr", ""]
+    for i, d in enumerate(shape["dnc"]):
+        args = []
+        if d is not None:
+            args.append(f"do_not_copy={d!r}")
+        if eager:
+            args.append("bootstrap=True")
+        out.append(f"@spec_class({', '.join(args)})" if args else "@spec_class")
+        out.append(f"class K{i}({'K%d' % (i - 1) if i else ''}):".replace("()", ""))
+        if i == 0:
+            out += ["    name: str = 'p'", "    payload: List[int] = Attr(default_factory=list)"]
+        else:
+            out.append(f"    extra{i}: int = {i}")
+            if shape["redeclare"]:
+                out.append("    payload: List[int] = Attr(default_factory=list)")
+        out.append("")
+    return "\n".join(out)
+
+
+def dnc_observe(cls):
+    from spec_classes.types import MISSING
+    m = cls.__dict__["__spec_class__"]
+    rows = ["meta:" + cls.__name__, repr(bool(m.do_not_copy))]
+    for n, a in m.attrs.items():
+        rows.append(repr((n, a.owner.__name__, bool(a.do_not_copy), a.init, a.repr,
+                          a.default_factory is not MISSING, a.default is not MISSING)))
+    try:
+        p = [1, 2, 3]
+        o = cls(payload=p)
+        rows.append(repr(("inst", o.payload is p, o.with_name("q").payload is p, o.payload,
+                          o.with_name("q") is o)))
+    except BaseException as e:  # noqa: BLE001
+        rows.append("inst-exc:" + type(e).__name__)
+    return rows
+
+
+def dnc_run(shape, seq, eager, visible=None):
+    ns = {}
+    exec(compile(dnc_render(shape, eager), "<c19-twin-dnc>", "exec"), ns)  # noqa: S102 - generated source
+    ks = [ns[f"K{i}"] for i in range(len(shape["dnc"]))]
+    obs, vis = [], []
+    for step, op in enumerate(seq):
+        T = ks[int(op[-1])]
+        try:
+            if op.startswith("inst"):
+                o = T(payload=[7])
+                obs.append(["ok", repr(o)])
+            elif op.startswith("meta"):
+                obs.append(["ok", repr(list(T.__spec_class__.attrs))])
+            else:
+                obs.append(["ok", repr(list(T.__dataclass_fields__))])
+        except BaseException as e:  # noqa: BLE001
+            obs.append(["exc", type(e).__name__])
+        if visible is None:  # the lazy twin decides which classes can be looked at without triggering them
+            now = [i for i, k in enumerate(ks) if not hasattr(type(k.__dict__.get("__spec_class__")), "__get__")]
+            vis.append(now)
+        else:
+            now = visible[step]
+        for i in now:
+            obs.append(dnc_observe(ks[i]))
+    return obs, vis
+
+
+def dnc_job(args):
+    shape, seq = args
+    table = {}
+    enc = lambda rows: [[table.setdefault(s, len(table) + 1) for s in row] for row in rows]  # noqa: E731
+    l, vis = dnc_run(shape, seq, False)
+    e, _ = dnc_run(shape, seq, True, vis)
+    return {"eager": enc(e), "lazy": enc(l), "eager_raw": e, "lazy_raw": l,
+            "eager_ok": all(r[0] != "exc" and not r[-1].startswith("inst-exc") for r in e)}
